@@ -124,6 +124,7 @@ type HarnessResult struct {
 	SampleInputs []SampleInput
 	Witnesses    []Witness // candidate path witnesses for the native translator validation
 	witSig       map[string]int
+	Funcs         map[string]bool // pike functions entered by any explored path
 	NotComparable int // complete paths that cannot be compared with a native run
 	Stopped      bool // exploration was cut short after the first violation
 }
@@ -151,7 +152,13 @@ func (w *World) RunHarness(pkg, fn string, opts *RunOpts, pool *SolverPool, work
 	}
 	hf := sp.Func(fn)
 	if hf == nil {
-		return nil, fmt.Errorf("harness %s.%s not found", pkg, fn)
+		why := ""
+		for f, msg := range w.ld.Dropped {
+			if strings.Contains(f, "/"+pkg+"/") {
+				why += fmt.Sprintf("; harness file %s does not compile against the current tree: %s", filepath.Base(f), msg)
+			}
+		}
+		return nil, fmt.Errorf("harness %s.%s not available%s", pkg, fn, why)
 	}
 	t0 := time.Now()
 	hr := &HarnessResult{Name: pkg + "." + fn, EndCounts: map[string]int{}, Asserts: map[string]*AssertAgg{}, Reached: map[string]int{}, Notes: map[string]int{}, Events: map[string]int{}}
@@ -257,6 +264,12 @@ func (w *World) RunHarness(pkg, fn string, opts *RunOpts, pool *SolverPool, work
 								ag.Details = append(ag.Details, a.Detail)
 							}
 						}
+					}
+					for f := range res.Funcs {
+						if hr.Funcs == nil {
+							hr.Funcs = map[string]bool{}
+						}
+						hr.Funcs[f] = true
 					}
 					for _, r := range res.Reached {
 						hr.Reached[r]++
